@@ -72,6 +72,68 @@ def guard_mutants():
     return out
 
 
+GENERIC_OPS = [
+    (r"<=", "<"), (r">=", ">"), (r"(?<![<>=!])<(?![<=-])", "<="), (r"(?<![<>=!-])>(?![>=])", ">="),
+    (r"==", "!="), (r"!=", "=="), (r"&&", "||"), (r"\|\|", "&&"),
+    (r" \+ 1\b", ""), (r" - 1\b", ""), (r"\btrue\b", "false"), (r"\bfalse\b", "true"),
+]
+
+
+def generic_mutants(prop, want=40):
+    """Generic operator mutants (relational / logical / off-by-one / boolean flips, statement deletion) inside the
+    functions this property's rules visited on the last run (evidence functions_visited_list).  Deterministic
+    sample (VERIF_SEED).  Equivalent and value-level mutants survive by design: the score measures how much of the
+    visited code the structural rules actually pin down, it never affects the verdict."""
+    import random
+    evp = os.path.join(VERIF, "evidence", prop + ".json")
+    try:
+        visited = set(json.load(open(evp))["coverage"].get("functions_visited_list") or [])
+    except Exception:
+        return []
+    r = subprocess.run([BIN, "-prop", "funcs", "-repo", REPO], capture_output=True, text=True)
+    spans = []
+    for line in r.stdout.splitlines():
+        parts = line.split("\t")
+        if len(parts) == 4 and parts[0] in visited:
+            spans.append((parts[1], int(parts[2]), int(parts[3]), parts[0]))
+    rnd = random.Random(int(os.environ.get("VERIF_SEED", "1")) * 7919 + sum(map(ord, prop)))
+    cands = []
+    for path, a, b, fn in spans:
+        lines = open(path).read().split("\n")
+        for ln in range(a, min(b, len(lines))):
+            text = lines[ln]
+            code = text.split("//")[0]
+            if not code.strip() or code.strip().startswith(("case ", "default", "func ", "}", "{")) and "==" not in code:
+                pass
+            for pat, rep in GENERIC_OPS:
+                for mm in re.finditer(pat, code):
+                    if code.count('"', 0, mm.start()) % 2 == 1 or code.count("'", 0, mm.start()) % 2 == 1 or code.count("`", 0, mm.start()) % 2 == 1:
+                        continue
+                    cands.append((path, ln, mm.start(), mm.end(), rep, fn, "`%s` -> `%s`" % (mm.group(0).strip() or mm.group(0), rep.strip() or "(dropped)")))
+            st = code.strip()
+            if re.match(r"^[A-Za-z_][\w.\[\]]* (=|\+=|-=|\|=|&=) [^{]*$", st) or re.match(r"^[A-Za-z_][\w.]*(\+\+|--)$", st):
+                cands.append((path, ln, None, None, None, fn, "statement `%s` deleted" % st[:50]))
+    # stratified by function: large functions (the interpreter loop) must not crowd out the small ones
+    rnd.shuffle(cands)
+    by_fn = {}
+    for cnd in cands:
+        by_fn.setdefault(cnd[5], []).append(cnd)
+    picked = []
+    while len(picked) < want and any(by_fn.values()):
+        for fn in sorted(by_fn):
+            if by_fn[fn] and len(picked) < want:
+                picked.append(by_fn[fn].pop())
+    out = []
+    for path, ln, a, b, rep, fn, what in picked:
+        lines = open(path).read().split("\n")
+        if rep is None:
+            lines[ln] = "\t_ = 0 // mutant: statement removed"
+        else:
+            lines[ln] = lines[ln][:a] + rep + lines[ln][b:]
+        out.append(({path: "\n".join(lines)}, "generic: %s:%d in %s: %s" % (os.path.relpath(path, REPO), ln + 1, fn, what)))
+    return out
+
+
 def run_variant(prop, overlay):
     with tempfile.NamedTemporaryFile("w", suffix=".json", delete=False) as f:
         json.dump(overlay, f)
@@ -114,6 +176,9 @@ def main():
         variants.append((overlay_from_patch(os.path.join(sd, d, "patch.diff")), "seeded %s (sub-agent change against %s)" % (d, meta.get("property_broken"))))
     if prop == "C10":
         variants += guard_mutants()
+    n_specific = len(variants)
+    generic = generic_mutants(prop, int(os.environ.get("VERIF_GENERIC_MUTANTS", "40")))
+    variants += generic
 
     results = []
 
@@ -127,7 +192,19 @@ def main():
     with ThreadPoolExecutor(max_workers=8) as ex:
         results = list(ex.map(work, variants))
 
+    gen = results[n_specific:]
+    results = results[:n_specific]
+    gen_ok = [r for r in gen if r["outcome"] in ("flagged", "survivor")]
+    generic_summary = {
+        "what": "generic operator mutants (relational, logical, off-by-one, boolean flips, statement deletion) sampled inside the functions this property's rules visited; many are equivalent or value-level by nature, so the score measures how much of the visited code the structural rules pin down — it is reported, never part of the verdict",
+        "sampled": len(gen),
+        "type_checked": len(gen_ok),
+        "flagged": sum(1 for r in gen_ok if r["outcome"] == "flagged"),
+        "survivors_sample": [r["variant"] for r in gen_ok if r["outcome"] == "survivor"][:15],
+        "flagged_sample": [r["variant"] for r in gen_ok if r["outcome"] == "flagged"][:10],
+    }
     summary = {
+        "generic_mutants": generic_summary,
         "variants": len(results),
         "flagged": sum(1 for r in results if r["outcome"] == "flagged"),
         "does_not_type_check": sum(1 for r in results if r["outcome"] == "does-not-type-check"),
@@ -149,6 +226,8 @@ def main():
         prop, summary["variants"], summary["flagged"], summary["does_not_type_check"], summary["edit_does_not_apply"], len(summary["survivors"]), summary["wall_s"]))
     for s in summary["survivors"]:
         print("  survivor:", s)
+    g = summary["generic_mutants"]
+    print("%s generic mutants in visited functions: %d sampled, %d type-check, %d flagged (reported only)" % (prop, g["sampled"], g["type_checked"], g["flagged"]))
 
 
 if __name__ == "__main__":
